@@ -53,6 +53,9 @@ type Agg struct {
 	MapShuffles  int64             `json:"map_shuffles"`
 	Uncontrolled int64             `json:"uncontrolled_map_ranges"`
 	Stalled      bool              `json:"stalled"`
+	SlowestRunS  float64           `json:"slowest_run_seconds"`
+	SlowestRun   int64             `json:"slowest_run_index"`
+	WarmS        float64           `json:"warm_seconds"`
 	FirstSeed    uint64            `json:"first_seed"`
 	LastSeed     uint64            `json:"last_seed"`
 	RaceReports  int64             `json:"race_reports"`
